@@ -72,10 +72,12 @@ Definition ks28 : list Z := [0;1;2;3;4;5;6;7;8;9;10;11;12;13;14;15;16;17;18;19;2
 Definition js7 : list Z := [1;2;3;4;5;6;7].
 
 Definition day_fact (X : Z) : bool :=
-  (1 <=? dom_of X) && (dom_of X <=? 31) && (dom_of (X - dom_of X + 1) =? 1) &&
-  (if dom_of X =? 1 then
+  let d := dom_of X in
+  (1 <=? d) && (d <=? 31) && (dom_of (X - d + 1) =? 1) &&
+  (if d =? 1 then
+     let N := month_next X in
      forallb (fun k => dom_of (X + k) =? k + 1) ks28 &&
-     ((dom_of (month_next X) =? 1) && (X + 28 <=? month_next X) && (month_next X <=? X + 31)) &&
+     ((dom_of N =? 1) && (X + 28 <=? N) && (N <=? X + 31)) &&
      forallb (fun j => month_next (X - j) =? X) js7
    else true).
 
@@ -87,7 +89,7 @@ Proof. intros; destruct (a =? b) eqn:E; lia. Qed.
 
 Lemma day_fact_shift : forall X q, day_fact (X + q * period) = day_fact X.
 Proof.
-  intros X q. unfold day_fact. rewrite dom_shift.
+  intros X q. unfold day_fact. cbv zeta. rewrite dom_shift.
   replace (X + q * period - dom_of X + 1) with (X - dom_of X + 1 + q * period) by ring. rewrite dom_shift.
   destruct (dom_of X =? 1); [|reflexivity].
   rewrite month_next_shift, dom_shift.
@@ -102,7 +104,7 @@ Qed.
 
 (* the sweep: all days 0 .. 147455 (one cycle is 146097 days) *)
 Lemma day_fact_cycle : range_all 17 0 day_fact && range_all 14 131072 day_fact = true.
-Proof. vm_compute. reflexivity. Qed.
+Proof. vm_cast_no_check (eq_refl true). Qed.   (* evaluated once, by the kernel's VM, at Qed *)
 
 Lemma day_fact_all : forall X, day_fact X = true.
 Proof.
@@ -117,17 +119,17 @@ Proof.
 Qed.
 
 Lemma dom_pos : forall X, 1 <= dom_of X <= 31.
-Proof. intros X. pose proof (day_fact_all X) as H. unfold day_fact in H. lia. Qed.
+Proof. intros X. pose proof (day_fact_all X) as H. unfold day_fact in H. cbv zeta in H. lia. Qed.
 
 Lemma dom_first : forall X, dom_of (X - dom_of X + 1) = 1.
-Proof. intros X. pose proof (day_fact_all X) as H. unfold day_fact in H. lia. Qed.
+Proof. intros X. pose proof (day_fact_all X) as H. unfold day_fact in H. cbv zeta in H. lia. Qed.
 
 Lemma month_start_facts : forall X, dom_of X = 1 ->
   (forall k, 0 <= k <= 27 -> dom_of (X + k) = k + 1) /\
   dom_of (month_next X) = 1 /\ X + 28 <= month_next X <= X + 31 /\
   (forall j, 1 <= j <= 7 -> month_next (X - j) = X).
 Proof.
-  intros X HX. pose proof (day_fact_all X) as H. unfold day_fact in H. rewrite HX in H. cbn [Z.eqb Pos.eqb] in H.
+  intros X HX. pose proof (day_fact_all X) as H. unfold day_fact in H. cbv zeta in H. rewrite HX in H. cbn [Z.eqb Pos.eqb] in H.
   apply andb_true_iff in H as [_ H]. apply andb_true_iff in H as [H H3]. apply andb_true_iff in H as [H1 H2].
   rewrite forallb_forall in H1, H3. split; [|split; [lia | split; [lia|]]].
   - intros k Hk. assert (I : In k ks28) by (unfold ks28; cbn; lia). specialize (H1 k I). lia.
